@@ -12,6 +12,30 @@ I64MIN = b'-9223372036854775808'
 CHUNK = 25000
 
 
+def casefuzz(rnd, a, p=0.12):
+    """Command names are case-insensitive: now and then send the name in lower or mixed case."""
+    if not isinstance(a, list) or not a or rnd.random() >= p:
+        return a
+    n = a[0]
+    k = rnd.randrange(3)
+    n2 = n.lower() if k == 0 else (n[:1].upper() + n[1:].lower() if k == 1 else bytes(
+        (c ^ 0x20) if (65 <= (c & ~0x20) <= 90 and rnd.random() < 0.5) else c for c in n))
+    return [n2] + list(a[1:])
+
+
+def glob_matrix(quick):
+    """(patterns, subjects) for the glob matchers: every pattern over {a, b, *, ?} up to a length, character classes,
+    escapes and the overlapping false starts behind a star; every subject over {a, b} up to a length."""
+    import itertools
+    pl, sl = (3, 4) if quick else (4, 5)
+    pats = [''.join(t).encode() for n in range(1, pl + 1) for t in itertools.product('ab*?', repeat=n)]
+    pats += [b'*aab', b'*ab*', b'*a*b', b'a*b*a', b'**a', b'*?b', b'?*?', b'[ab]*', b'*[ab]', b'[^a]*', b'*[a-b]b', b'a[b]', b'\\*a',
+             b'a\\*', b'*abab', b'*ba*ab', b'a*a*a', b'*aa*aa', b'[ab]b', b'a[^b]', b'*-done', b'*.a.b']
+    subs = [''.join(t).encode() for n in range(1, sl + 1) for t in itertools.product('ab', repeat=n)]
+    subs += [b'aaab', b'ababab', b'babab', b'aabaab', b'*a', b'a*', b'job--done', b'job-done', b'x.a.a.b', b'aaaaab', b'abaabaab']
+    return pats, subs
+
+
 def fresh_session(ctx, srv, label):
     tr = ctx.new_trace(label)
     s = Session(srv, tr)
@@ -78,7 +102,7 @@ def replay_paths(ctx, srv, paths, label='gen', pre=None, dump_every=0):
                         s.cmd(cid, a)
                 for a in paths[i]:
                     cid = ensure_conn(s, cid)
-                    s.cmd(cid, a)
+                    s.cmd(cid, casefuzz(ctx.rnd, a))
                 i += 1
                 if dump_every and i % dump_every == 0:
                     cid = ensure_conn(s, cid)
@@ -104,7 +128,7 @@ def random_history(ctx, srv, g, n, label='rand', dbs=(0,)):
             if isinstance(a, tuple) and a[0] == 'sleep':
                 time.sleep(a[1] / 1000.0)
                 continue
-            s.cmd(cid, a)
+            s.cmd(cid, casefuzz(ctx.rnd, a))
         cid = ensure_conn(s, cid)
         for d in dbs:
             if len(dbs) > 1 or d != 0:
@@ -253,7 +277,7 @@ def replay_conn_paths(ctx, srv, paths, label='gen', password=None, header=None, 
                 for c, a in paths[i]:
                     if c not in cmap or cmap[c] not in s.clients:
                         cmap[c] = s.open()
-                    s.cmd(cmap[c], a)
+                    s.cmd(cmap[c], casefuzz(ctx.rnd, a))
                 for c in list(cmap.values()):
                     if c in s.clients:
                         s.close(c)
